@@ -7,7 +7,7 @@ Shared line-protocol driver of the transaction / history model (C17, C18). Lines
   stmt <dry 0|1> <time> <clause> <clause> …      one KML statement → its outcome
   stage                                          where the last statement ended (diagnostic)
   dump                                           the whole store in canonical text
-  asof <seq>                                     every element as `element_at` reconstructs it at the coordinate
+  asof <seq> | asofv <seq>                       every element as `element_at` reconstructs it at the coordinate (full / id,version,state)
   seqoftx <seq> | seqattime <t>                  AS OF TX / AS OF TIME resolution
 
 clause tokens (`:`-separated, `-` = absent; id = kind letter + number, e.g. `C3`; ref = `h<n>` | id):
@@ -17,6 +17,7 @@ clause tokens (`:`-separated, `-` = absent; id = kind letter + number, e.g. `C3`
   cr:<A|E|X>:<h>:<pay>:<ref,ref,…|->:<bad>       CREATE ASSERTION / EVIDENCE / ACTIVITY
   ud:<ref>:<val>:<expect|->:<bad>                UPDATE
   ss:<ref>:<r|t>:<a|r|t|->                       ARCHIVE (r) / TOMBSTONE (t) [EXPECT STATE]
+  rt:<ref>:<0|1|->                               RETRACT ASSERTION [EXPECT STATE active (0) / retracted (1)]
 -/
 open AndaVerif.Tx AndaVerif.Drv
 
@@ -68,6 +69,8 @@ def parseClause (tok : String) : Option Clause :=
       pure (.createRec (← kindOfChar kc) (← h.toNat?) (← pay.toNat?) (← parseRefs refs) (← parseBool bad))
   | ["ud", t, val, ex, bad] => do
       pure (.update (← parseRef t) (← val.toNat?) (← parseOptNat ex) (← parseBool bad))
+  | ["rt", t, ex] => do
+      pure (.retract (← parseRef t) (← parseOptNat ex))
   | ["ss", t, to, ex] => do
       let ex ← if ex = "-" then some none else (parseSt ex).map some
       pure (.setState (← parseRef t) (← parseSt to) ex)
@@ -79,10 +82,10 @@ def showSt : St → String
   | .pending => "pending" | .active => "active" | .archived => "archived" | .tombstoned => "tombstoned"
 
 def showOp : Op → String
-  | .create => "create" | .update => "update" | .archive => "archive" | .tombstone => "tombstone"
+  | .create => "create" | .update => "update" | .archive => "archive" | .tombstone => "tombstone" | .retract => "retract"
 
 def showErr : Err → String
-  | .dupHandle => "duphandle" | .invalid => "invalid" | .unknownHandle => "unknownhandle" | .notFound => "notfound"
+  | .dupHandle => "invalid" | .invalid => "invalid" | .unknownHandle => "invalid" | .notFound => "notfound"
   | .versionConflict => "version" | .precond => "precond" | .identityConflict => "identity" | .unique => "identity"
 
 def showChange (c : Change) : String := s!"{showId c.id}.{showOp c.op}.{c.version}"
@@ -125,6 +128,16 @@ def dump (s : Store) : String :=
 def asOf (s : Store) (c : Nat) : String :=
   join ";" ((allIds s).filterMap (fun i => (elementAt s.vlog i c).map (fun v => showElem i v.elem)))
 
+/-- what an `AS OF SEQ c` answer carries of every element: id, version, state (tuple patterns read
+active Propositions only) -/
+def asOfV (s : Store) (c : Nat) : String :=
+  join ";" ((allIds s).filterMap (fun i =>
+    match elementAt s.vlog i c with
+    | some v =>
+        if i.kind = .proposition ∧ v.elem.state ≠ .active then none
+        else some s!"{showId i}/{v.version}/{showSt v.elem.state}"
+    | none => none))
+
 structure DS where
   s : Store
   last : Option Outcome
@@ -143,6 +156,10 @@ def step (d : DS) (line : String) : DS × String :=
   | ["asof", c] =>
       match c.toNat? with
       | some c => (d, asOf d.s c)
+      | none => (d, "bad-op")
+  | ["asofv", c] =>
+      match c.toNat? with
+      | some c => (d, asOfV d.s c)
       | none => (d, "bad-op")
   | ["seqoftx", t] =>
       match t.toNat? with
